@@ -2,7 +2,8 @@ import LyModel.Valid.SpecDefaults
 import LyModel.Valid.Hist
 import LyModel.Valid.Ops
 import LyModel.Valid.ValApply
-import LyModel.Valid.LemmasCompletionObs
+import LyModel.Valid.LemmasCompletionTree
+import LyModel.Valid.LemmasValdiffQuiet
 import LyModel.Valid.FullSaneB
 import LyModel.Valid.LemmasPerm
 import LyModel.Valid.FullUniq
@@ -53,14 +54,19 @@ def handle (op : String) (args : List String) : String :=
         let f : Diff.Fixes := { f120 := l.contains "120", f126 := l.contains "126", f128 := l.contains "128" }
         let o := VOpts.ofNat on
         -- hypotheses and statements of Props/C07Completion.lean on the input of every validation: `implicit_exact_tree_nochoice` (hyp, statement),
-        -- `implicit_exact_tree_explicit` (hyp, statement)
+        -- `implicit_exact_tree_explicit` (hyp, statement), `implicit_exact_tree` (all schemas: hyp)
+        let csB := choiceSchemaB X
+        let dsB := dataSchemaB X
+        let okB := okBelowB X
         let extra := fun (t : List DNode) =>
           let T := (validate X o t).tree
-          lawBit (dataSchemaB X && !o.noState && freshExplL t && placedL X X.top t && cShapedL X.base t && decide (sheightL X.top ≤ walkFuel X t)
+          lawBit (dsB && !o.noState && freshExplL t && placedL X X.top t && cShapedL X.base t && decide (sheightL X.top ≤ walkFuel X t)
             && !(o.present && t.isEmpty))
           ++ lawBit (beqL (obsL X.base T) (obsL X.base (rfcComplete X o t)))
-          ++ lawBit (okBelowB X && freshExplL t && npFullL X.base t && !(o.present && t.isEmpty))
+          ++ lawBit (okB && freshExplL t && npFullL X.base t && !(o.present && t.isEmpty))
           ++ lawBit (beqL (explicitPart T) (explicitPart t))
+          ++ lawBit (csB && !X.q.implicitInnerCase && !o.noState && choiceDataB X t && !(o.present && t.isEmpty))
+          ++ lawBit (okB && !npAtRiskL X true true t t && topCreates X o t && !(o.present && t.isEmpty))
         "ok" ++ String.join ((runLaw X o f extra sts 0 0 []).map (" " ++ ·))
       | _, _ => "err BadStep"
   | "rfcdefaults", [dsl, xdsl, opts, dump] =>
